@@ -1387,20 +1387,23 @@ def r12(ctx):
         members, order_only = python_mutators(t)
         mutators = set(members) | set(order_only)
         interp = _model_interp(ctx, t, fac)
-        per_key, shown_of = {}, {}
-        for case in Q.CASES[t](ctx.thorough):
-            if case.mname not in decs:
-                continue  # missing decorator: C38-R1
-            key = f"{fac.key}.{case.mname}:model" + (f"[{case.aspect}]" if case.aspect else "")
-            rec = per_key.setdefault(key, [0, [], case.mname])
-            rec[0] += 1
-            interp.budget = 100000
-            try:
-                bad = Q.compare(interp, t, mutators, case)
-            except Q.Unsupported as e:
-                ctx.error(f"{key}: the wrapper uses a construct outside the model-checked subset: {e} (input: {case.show})")
-            if bad:
-                rec[1].append(bad)
+        per_key = {}
+        # (memory_guard: a wrapper variant that makes a builtin consume an ever growing container ends in MemoryError ->
+        # exit 2 instead of exhausting the machine)
+        with Q.memory_guard():
+            for case in Q.CASES[t](ctx.thorough):
+                if case.mname not in decs:
+                    continue  # missing decorator: C38-R1
+                key = f"{fac.key}.{case.mname}:model" + (f"[{case.aspect}]" if case.aspect else "")
+                rec = per_key.setdefault(key, [0, [], case.mname])
+                rec[0] += 1
+                interp.budget = 100000
+                try:
+                    bad = Q.compare(interp, t, mutators, case)
+                except Q.Unsupported as e:
+                    ctx.error(f"{key}: the wrapper uses a construct outside the model-checked subset: {e} (input: {case.show})")
+                if bad:
+                    rec[1].append(bad)
         for key, (n, bads, mname) in sorted(per_key.items()):
             _, w, _ = decs[mname]
             loc = f"{fac.module.path}:{w.lineno}"
@@ -1917,3 +1920,8 @@ R.mutant("benign-list-setitem-error-message-as-fstring-and-walrus", COLL,
          sub("                    rng = list(range(start, stop, step))\n                    if len(value) != len(rng):\n                        raise ValueError(\n                            \"attempt to assign sequence of size %s to \"\n                            \"extended slice of size %s\"\n                            % (len(value), len(rng))\n                        )\n",
              "                    rng = list(range(start, stop, step))\n                    if (given := len(value)) != len(rng):\n                        raise ValueError(\n                            f\"attempt to assign sequence of size {given} to \"\n                            f\"extended slice of size {len(rng)}\"\n                        )\n"),
          None)
+# a wrapper that never returns on a 1-element collection is a divergence too (bounded interpreter: steps, size, memory)
+R.mutant("list-extend-iterates-the-live-operand", COLL,
+         sub("        def extend(self, iterable):\n            for value in list(iterable):\n                self.append(value)\n",
+             "        def extend(self, iterable):\n            for value in iterable:\n                self.append(value)\n"),
+         "C38-R12")
